@@ -300,6 +300,17 @@ def contributions(func: Func, name: str) -> list[tuple[ast.stmt, str]]:
 
 
 _NEW_FUNCS: set[str] = set()
+def inline_result_names(func: Func, name: str) -> set[str]:
+    """names a copied-in helper returns into `name` (`with __ngosa_inline__(..) as name: ... return x`), plus name itself"""
+    out = {name}
+    for node in ast.walk(func.node):
+        if isinstance(node, ast.With) and getattr(node, "ngosa_inline", None) is not None and node.items and isinstance(node.items[0].optional_vars, ast.Name) and node.items[0].optional_vars.id == name:
+            for sub_ in ast.walk(node):
+                if isinstance(sub_, ast.Return) and isinstance(sub_.value, ast.Name):
+                    out.add(sub_.value.id)
+    return out
+
+
 _PRG = None
 
 
